@@ -19,9 +19,15 @@ Chess/Rules.vos Chess/Rules.vok Chess/Rules.required_vos: Chess/Rules.v Base/Geo
 Chess/RulesFacts.vo Chess/RulesFacts.glob Chess/RulesFacts.v.beautified Chess/RulesFacts.required_vo: Chess/RulesFacts.v Chess/Rules.vo Base/FileRank.vo
 Chess/RulesFacts.vio: Chess/RulesFacts.v Chess/Rules.vio Base/FileRank.vio
 Chess/RulesFacts.vos Chess/RulesFacts.vok Chess/RulesFacts.required_vos: Chess/RulesFacts.v Chess/Rules.vos Base/FileRank.vos
+Chess/San.vo Chess/San.glob Chess/San.v.beautified Chess/San.required_vo: Chess/San.v Chess/Rules.vo Chess/Fen.vo
+Chess/San.vio: Chess/San.v Chess/Rules.vio Chess/Fen.vio
+Chess/San.vos Chess/San.vok Chess/San.required_vos: Chess/San.v Chess/Rules.vos Chess/Fen.vos
 Chess/TextProofs.vo Chess/TextProofs.glob Chess/TextProofs.v.beautified Chess/TextProofs.required_vo: Chess/TextProofs.v Chess/Rules.vo Chess/Fen.vo Chess/RulesFacts.vo Base/FileRank.vo
 Chess/TextProofs.vio: Chess/TextProofs.v Chess/Rules.vio Chess/Fen.vio Chess/RulesFacts.vio Base/FileRank.vio
 Chess/TextProofs.vos Chess/TextProofs.vok Chess/TextProofs.required_vos: Chess/TextProofs.v Chess/Rules.vos Chess/Fen.vos Chess/RulesFacts.vos Base/FileRank.vos
+Engine/Classify.vo Engine/Classify.glob Engine/Classify.v.beautified Engine/Classify.required_vo: Engine/Classify.v Engine/RepAbs.vo Engine/Magic.vo
+Engine/Classify.vio: Engine/Classify.v Engine/RepAbs.vio Engine/Magic.vio
+Engine/Classify.vos Engine/Classify.vok Engine/Classify.required_vos: Engine/Classify.v Engine/RepAbs.vos Engine/Magic.vos
 Engine/Encoding.vo Engine/Encoding.glob Engine/Encoding.v.beautified Engine/Encoding.required_vo: Engine/Encoding.v Base/Bits.vo
 Engine/Encoding.vio: Engine/Encoding.v Base/Bits.vio
 Engine/Encoding.vos Engine/Encoding.vok Engine/Encoding.required_vos: Engine/Encoding.v Base/Bits.vos
@@ -94,6 +100,12 @@ Props/Properties_C07.vos Props/Properties_C07.vok Props/Properties_C07.required_
 Props/Properties_C11.vo Props/Properties_C11.glob Props/Properties_C11.v.beautified Props/Properties_C11.required_vo: Props/Properties_C11.v Engine/Magic.vo Engine/MagicProofs.vo Props/C11Glue.vo Gen/MagicData.vo Props/C11Sweep_R0.vo Props/C11Sweep_R1.vo Props/C11Sweep_R2.vo Props/C11Sweep_R3.vo Props/C11Sweep_R4.vo Props/C11Sweep_R5.vo Props/C11Sweep_R6.vo Props/C11Sweep_R7.vo Props/C11Sweep_B.vo
 Props/Properties_C11.vio: Props/Properties_C11.v Engine/Magic.vio Engine/MagicProofs.vio Props/C11Glue.vio Gen/MagicData.vio Props/C11Sweep_R0.vio Props/C11Sweep_R1.vio Props/C11Sweep_R2.vio Props/C11Sweep_R3.vio Props/C11Sweep_R4.vio Props/C11Sweep_R5.vio Props/C11Sweep_R6.vio Props/C11Sweep_R7.vio Props/C11Sweep_B.vio
 Props/Properties_C11.vos Props/Properties_C11.vok Props/Properties_C11.required_vos: Props/Properties_C11.v Engine/Magic.vos Engine/MagicProofs.vos Props/C11Glue.vos Gen/MagicData.vos Props/C11Sweep_R0.vos Props/C11Sweep_R1.vos Props/C11Sweep_R2.vos Props/C11Sweep_R3.vos Props/C11Sweep_R4.vos Props/C11Sweep_R5.vos Props/C11Sweep_R6.vos Props/C11Sweep_R7.vos Props/C11Sweep_B.vos
+Props/Properties_C15.vo Props/Properties_C15.glob Props/Properties_C15.v.beautified Props/Properties_C15.required_vo: Props/Properties_C15.v Chess/Rules.vo Engine/Classify.vo
+Props/Properties_C15.vio: Props/Properties_C15.v Chess/Rules.vio Engine/Classify.vio
+Props/Properties_C15.vos Props/Properties_C15.vok Props/Properties_C15.required_vos: Props/Properties_C15.v Chess/Rules.vos Engine/Classify.vos
 Props/Properties_C16.vo Props/Properties_C16.glob Props/Properties_C16.v.beautified Props/Properties_C16.required_vo: Props/Properties_C16.v Engine/Encoding.vo Engine/EncodingProofs.vo Chess/Rules.vo Chess/Fen.vo Chess/TextProofs.vo
 Props/Properties_C16.vio: Props/Properties_C16.v Engine/Encoding.vio Engine/EncodingProofs.vio Chess/Rules.vio Chess/Fen.vio Chess/TextProofs.vio
 Props/Properties_C16.vos Props/Properties_C16.vok Props/Properties_C16.required_vos: Props/Properties_C16.v Engine/Encoding.vos Engine/EncodingProofs.vos Chess/Rules.vos Chess/Fen.vos Chess/TextProofs.vos
+Props/Properties_C17.vo Props/Properties_C17.glob Props/Properties_C17.v.beautified Props/Properties_C17.required_vo: Props/Properties_C17.v Chess/Rules.vo Chess/San.vo
+Props/Properties_C17.vio: Props/Properties_C17.v Chess/Rules.vio Chess/San.vio
+Props/Properties_C17.vos Props/Properties_C17.vok Props/Properties_C17.required_vos: Props/Properties_C17.v Chess/Rules.vos Chess/San.vos
